@@ -80,7 +80,7 @@ def build_spec(rng):
     blank = lambda: [''] * rng.choice([0, 0, 1, 2])
     L += ['%top{', mark('top', P(bad_str), 'string'), mark('top', P(bad_cmt), 'comment'), '}'] + blank()
     feats = set(f for f in ('longline', 'strcont', 'indent_then_block', 'cmtcont', 'indent_gap', 'mid_block', 'blank_runs',
-                            'pipe_then_pctbrace', 'less_multiline') if rng.random() < 0.3)
+                            'pipe_then_pctbrace', 'less_multiline', 'bs_bracket', 'apos_line') if rng.random() < 0.3)
     if 'indent_then_block' in feats:
         L += ['    static int fv_indented_first;']
     L += ['%{', '#include <stdio.h>', 'static void fv_use(const char *s) { (void) s; }',
@@ -105,6 +105,13 @@ def build_spec(rng):
         L += ['z2\t{ /* a comment', '   over two lines */ fv_use("z2"); }'] + blank()
     if 'less_multiline' in feats:
         L += ['z3\t{ yyless(', '\t\t1', '\t); }'] + blank()
+    if 'bs_bracket' in feats:
+        # a backslash right before [[ or ]] inside a string / character constant of an action (F70)
+        q = P(bad_str + ['{', '}'])
+        L += ['z6\t' + mark('action_string', rng.choice(['\\]]', '\\[[', 'a\\]]b', '\\]\\]]']) + q, 'stmt')] + blank()
+    if 'apos_line' in feats:
+        # a one-line action that ends in a // comment with an apostrophe: the rule still needs its break (F69)
+        L += ['z7\tfv_use("z7"); // don\'t', 'z8\tfv_use("z8");'] + blank()
     L += ['a+\t{ ' + mark('action_brace', P(bad_str + ['{', '}']), 'stmt') + ' }'] + blank()
     if 'mid_block' in feats:
         # a %{ %} block between two rules: copied to the output (its place there is the user's business)
@@ -159,6 +166,12 @@ def _e2e_job(job):
             res['problems'].append('user code of region %s (marker %d) is missing from the generated scanner' % (region, k))
         elif m.group(1) != payload:
             res['problems'].append('user code of region %s altered: wrote %r, scanner has %r' % (region, payload, m.group(1)))
+    if 'apos_line' in feats:
+        m7 = re.search(r'fv_use\("z7"\);(.*?)fv_use\("z8"\);', out, re.S)
+        if not m7:
+            res['problems'].append('the actions of the rules z7/z8 are missing from the generated scanner')
+        elif 'break;' not in m7.group(1):
+            res['problems'].append("the action `fv_use(\"z7\"); // don't` is not followed by a break: it falls through into the next rule's action")
     if hf:
         try:
             hout = open(hf, encoding='latin1').read()
